@@ -198,7 +198,8 @@ func c17ConnVerdict(h *gwHarness, sc c17Scenario, srv *vrt.Conn, c int) string {
 					return "HARNESS: reference failed " + err.Error()
 				}
 				if act == "dataerrors" {
-					want = append(want, map[string]interface{}{"errors": "partial failure upstream"})
+					// errors forwarded, and the data that came with them stitched and scrubbed like any other event's
+					want = append(want, map[string]interface{}{"errors": "partial failure upstream", "partial": gqlref.Norm(data)})
 				} else {
 					want = append(want, map[string]interface{}{"data": gqlref.Norm(data)})
 				}
@@ -250,6 +251,17 @@ func c17ConnVerdict(h *gwHarness, sc c17Scenario, srv *vrt.Conn, c int) string {
 				}
 				if !found {
 					return "upstream error payload not forwarded as errors"
+				}
+				if pd, ok := want[k]["partial"]; ok {
+					if gd, has := g[k].Payload["data"]; has && gd != nil {
+						pw, _ := gqlref.Prune(pd)
+						pg, _ := gqlref.Prune(gd)
+						for _, d := range a.DiffSigs(pw, pg) {
+							if strings.HasPrefix(d, "diff:EXTRA") {
+								return "event with errors and data: the data carries keys the client did not ask for: " + d
+							}
+						}
+					}
 				}
 			}
 		}
